@@ -217,3 +217,10 @@ PROPERTIES["C09"]["explanation"] += (" The axes of the continuous arg-max are th
 PROPERTIES["C06"]["rules"] += [sim.data_space_layout]
 PROPERTIES["C06"]["explanation"] += (" The simulator evaluates the solver's value functions on agents x sparse-choice combinations; the pairing of "
                                      "rows (R5.LAY) is part of that agreement.")
+
+for _p in ("C07", "C12", "C19"):
+    PROPERTIES[_p]["rules"] += [sig.no_decision_on_defaults]
+    PROPERTIES[_p]["explanation"] += " No decision depends on whether an argument of a user function has a default value (R16.DEFAULTS)."
+
+PROPERTIES["C20"]["rules"] += [bel.logsumexp_shift]
+PROPERTIES["C20"]["explanation"] += " The shift inside exp is the maximum of the row's own segment and is added back (R13.LSE)."
